@@ -3,9 +3,14 @@ package main
 // Child side of the Joe families: the scenario, its val encoding, and its interpreter.
 //
 // scenario = ( meta replayer subs pubs shuts )
-//   meta     = ( seed gomaxprocs policy parks [noonsession] )
+//   meta     = ( seed gomaxprocs policy parks [noonsession [spelling]] )
 //              noonsession n1: the sse.Server of the scenario (see `via` below) has NO OnSession callback: every session
 //              that comes in through it is subscribed to the default topic
+//              spelling: how the topic NUMBERS of the scenario (topic 0 is always sse.DefaultTopic, the empty name) are
+//              spelled as topic names - n0 one letter; else see jSpellings: names of 63 .. 5000 bytes that differ in
+//              their last or first byte only, names with NUL / UTF-8 / blanks, lists that mix the sizes, names that are
+//              prefixes of each other.  Topics are opaque to Joe, to the model and to the monitors (the trace records the
+//              numbers): what a subscriber is owed cannot depend on how its topics are spelled.
 //     park   = ( point id nth stages timeout_us )   hold the goroutine that logged event `point`
 //              with first argument `id` (n999999 = any) at its nth occurrence (n0 = every one)
 //              until the stages were observed or the timeout expired
@@ -25,7 +30,8 @@ package main
 //              whose CHARACTER is (v-100)%200/10 (see jErr): plain, Temporary(), Timeout(), wrapping
 //              os.ErrDeadlineExceeded / context.DeadlineExceeded / context.Canceled of some other context, a *net.OpError,
 //              and - calls that belong to a subscriber - the subscriber's own context cancelled inside the call and its
-//              ctx.Err() returned as it is / wrapped with %w / wrapped in the harness's type.  putscript only: v in
+//              ctx.Err() returned as it is / wrapped with %w / wrapped in the harness's type; values wrapping the
+//              library's own sentinels; values whose As / Is methods answer true to everything.  putscript only: v in
 //              [300,400) = the error of character (v-300)/10 returned TOGETHER with the message (return m, err)
 //   sub      = ( topics idopt wscript selfcancel start cancelopt [via] )  cancelopt = () never | ( cond )
 //              (( () ) = cancelled before Subscribe is called)
@@ -158,6 +164,7 @@ type jParkSpec struct {
 type jScenario struct {
 	seed, procs, policy uint64
 	noOnSession         bool
+	spell               uint64 // how topic numbers are spelled as names (jTopicName)
 	parks               []*jParkSpec
 	kind, cap, auto, gc uint64
 	putScript           []uint64
@@ -237,8 +244,11 @@ func (s *jScenario) enc() val.V {
 		rv = append(rv, val.N(s.gc))
 	}
 	meta := []val.V{val.N(s.seed), val.N(s.procs), val.N(s.policy), val.List(parks)}
-	if s.noOnSession {
-		meta = append(meta, val.N(1))
+	if s.noOnSession || s.spell != 0 {
+		meta = append(meta, val.Bool(s.noOnSession))
+	}
+	if s.spell != 0 {
+		meta = append(meta, val.N(s.spell))
 	}
 	return val.L(
 		val.List(meta),
@@ -256,7 +266,7 @@ func jDecCond(v val.V) jCond {
 
 func jDecode(v val.V) *jScenario {
 	meta, rep := v.At(0), v.At(1)
-	s := &jScenario{seed: meta.At(0).Num(), procs: meta.At(1).Num(), policy: meta.At(2).Num(), noOnSession: meta.At(4).Truth(),
+	s := &jScenario{seed: meta.At(0).Num(), procs: meta.At(1).Num(), policy: meta.At(2).Num(), noOnSession: meta.At(4).Truth(), spell: meta.At(5).Num(),
 		kind: rep.At(0).Num(), cap: rep.At(1).Num(), auto: rep.At(2).Num(), gc: rep.At(5).Num(),
 		putScript: scriptOf(rep.At(3)), repScript: scriptOf(rep.At(4))}
 	for _, p := range meta.At(3).Items() {
@@ -287,16 +297,70 @@ func jDecode(v val.V) *jScenario {
 	return s
 }
 
-func jTopicName(n uint64) string {
+// jSpellings: the shapes a scenario's topic names can have.  size > 0: names of exactly that many bytes - a filler
+// and ONE distinguishing byte (the last one, or the first one where `first` is set); size 0: see jTopicName.
+var jSpellings = []struct {
+	name  string
+	size  int
+	first bool
+}{
+	{"one-letter", 1, false},
+	{"63-bytes", 63, false}, {"64-bytes", 64, false}, {"65-bytes", 65, false},
+	{"127-bytes", 127, false}, {"128-bytes", 128, false}, {"129-bytes", 129, false},
+	{"200-bytes", 200, false}, {"255-bytes", 255, false}, {"256-bytes", 256, false}, {"257-bytes", 257, false},
+	{"1000-bytes", 1000, false}, {"5000-bytes", 5000, false},
+	{"64-bytes-differing-in-the-first-byte", 64, true}, {"300-bytes-differing-in-the-first-byte", 300, true},
+	{"NUL-inside", 0, false}, {"UTF-8", 0, false}, {"blanks-and-controls", 0, false},
+	{"sizes-mixed-in-one-scenario", 0, false}, {"prefixes-of-each-other", 0, false},
+}
+
+var jMixedSizes = []int{1, 63, 64, 65, 200, 5000, 127, 128, 255, 256, 2, 32}
+
+func jSizedName(size int, first bool, letter byte) string {
+	b := make([]byte, size)
+	for i := range b {
+		b[i] = 't'
+	}
+	if first {
+		b[0] = letter
+	} else {
+		b[size-1] = letter
+	}
+	return string(b)
+}
+
+// jTopicName spells topic number n.  Topic 0 is the default topic (the empty name) in every spelling; distinct
+// numbers get distinct names.
+func jTopicName(n, spell uint64) string {
 	if n == 0 {
 		return sse.DefaultTopic
 	}
-	return string(rune('a' + n - 1))
+	letter := byte('a' + (n-1)%26)
+	if spell >= uint64(len(jSpellings)) {
+		spell = 0
+	}
+	sp := jSpellings[spell]
+	if sp.size > 0 {
+		return jSizedName(sp.size, sp.first, letter)
+	}
+	switch sp.name {
+	case "NUL-inside":
+		return "t\x00" + string(rune(letter)) // equal up to and including the NUL
+	case "UTF-8":
+		return "té世" + string(rune(0x430+n)) // the names differ in the last byte of a two-byte rune only
+	case "blanks-and-controls":
+		return " \t" + string(rune(letter)) + " "
+	case "prefixes-of-each-other":
+		return jSizedName(int(n)+62, true, 't') // "ttt...": topic n (63, 64, 65 .. bytes) is a proper prefix of topic n+1
+	default: // sizes mixed: the size depends on the topic number
+		return jSizedName(jMixedSizes[n%uint64(len(jMixedSizes))], false, letter)
+	}
 }
-func jTopicNames(ns []uint64) []string {
+
+func (s *jScenario) topicNames(ns []uint64) []string {
 	out := make([]string, len(ns))
 	for i, n := range ns {
-		out[i] = jTopicName(n)
+		out[i] = jTopicName(n, s.spell)
 	}
 	return out
 }
@@ -313,15 +377,23 @@ func jTopicNames(ns []uint64) []string {
 //	  error is ctx.Err() itself / fmt.Errorf("...: %w", ctx.Err()) / a jErr wrapping ctx.Err()
 //	10 11 12 13 wraps the library's own sse.ErrNoTopic / sse.ErrProviderClosed / sse.ErrUnexpectedEOF, and io.EOF
 //	  (values Joe himself gives a meaning to when HE produces them; coming from a writer or a replayer they are errors)
+//	14 its method As(any) bool answers true to every question (and sets nothing)   15 its method Is(error) bool
+//	  answers true to every question - the catch-all helpers of test doubles and "error kind" types: to whoever asks
+//	  errors.As / errors.Is such a value "is" any type and any sentinel, the asker's own private ones included
 type jErr struct {
 	idx   uint64
 	inner error
 }
 
 const (
-	jErrKinds    = 10 // characters a subscriber's writer (and a Replay for that subscriber) can answer
-	jErrKindsAny = 7  // characters that need no subscriber
+	jErrKinds     = 10 // characters a subscriber's writer (and a Replay for that subscriber) can answer
+	jErrKindsAny  = 7  // characters that need no subscriber
+	jErrKindFirst = 10 // the further characters that need no subscriber: jErrKindFirst .. jErrKindLast
+	jErrKindLast  = 15
 )
+
+// the characters that need no subscriber, for the sweeps
+var jErrKindsSweep = []uint64{0, 1, 2, 3, 4, 5, 6, 10, 11, 12, 13, 14, 15}
 
 func jErrKind(v uint64) uint64 {
 	if v < 100 {
@@ -333,6 +405,11 @@ func jErrKind(v uint64) uint64 {
 func (e jErr) Error() string   { return fmt.Sprintf("scripted error %d", e.idx) }
 func (e jErr) Temporary() bool { return jErrKind(e.idx) == 1 }
 func (e jErr) Timeout() bool   { k := jErrKind(e.idx); return k == 2 || k == 6 }
+
+// As / Is: the permissive characters claim to be whatever they are asked about (As sets nothing: the asker's
+// target keeps its zero value).  joeErrCode recognises a jErr by its type, which errors.As tries first.
+func (e jErr) As(any) bool   { return jErrKind(e.idx) == 14 }
+func (e jErr) Is(error) bool { return jErrKind(e.idx) == 15 }
 func (e jErr) Unwrap() error {
 	switch jErrKind(e.idx) {
 	case 3:
@@ -899,7 +976,7 @@ func (x *jx) onSession(_ http.ResponseWriter, r *http.Request) ([]string, bool) 
 	if len(w.spec.topics) == 0 && w.spec.via&jViaNil != 0 {
 		return nil, true
 	}
-	return jTopicNames(w.spec.topics), true
+	return x.sc.topicNames(w.spec.topics), true
 }
 
 func (w *jwriter) verdict() uint64 {
@@ -1160,7 +1237,7 @@ func joeRunScenario(v val.V, seq uint64, shm []byte) (status uint64, events []va
 				if spec.via&jViaSession != 0 {
 					w.sess, _ = sse.Upgrade(&jsink{}, httptest.NewRequest(http.MethodGet, "/events", nil))
 				}
-				err := x.joe.Subscribe(ctx, sse.Subscription{Client: w, LastEventID: lastID(spec.idopt), Topics: jTopicNames(spec.topics)})
+				err := x.joe.Subscribe(ctx, sse.Subscription{Client: w, LastEventID: lastID(spec.idopt), Topics: sc.topicNames(spec.topics)})
 				x.rec(9, w.i, val.N(joeErrCode(err)))
 			}()
 			if spec.hasCancel && len(spec.cancel) > 0 {
@@ -1192,7 +1269,7 @@ func joeRunScenario(v val.V, seq uint64, shm []byte) (status uint64, events []va
 					m = jMkMsg(ms, p)
 				}
 				objs[k] = m
-				topics := jTopicNames(ms.topics)
+				topics := sc.topicNames(ms.topics)
 				if ms.flags&jPubReuse != 0 && (sc.kind == 0 || sc.kind == 4) {
 					if buf != nil && len(topics) <= cap(buf) &&
 						x.waitStages(jCond{{code: jRoundOver, id: bufTok, count: 1}}, jHard, true) {
